@@ -10,6 +10,8 @@ import (
 
 // Perm, when set, returns the index of the permutation (0 = natural order,
 // 0 <= index < n!) to use for this dynamic execution of the site with n keys.
+// A negative index selects one of the 2n-1 orders used for maps too large for n!: -1 = reversed,
+// -(k+1) = rotated left by k (0 < k < n), -(n+k) = rotated left by k and reversed.
 var Perm func(site string, n int) int
 
 // Sites records which sites were executed (site -> max number of keys seen).
@@ -31,6 +33,22 @@ func Keys[K comparable, V any](m map[K]V, site string) []K {
 	idx := Perm(site, len(ks))
 	if idx == 0 {
 		return ks
+	}
+	if idx < 0 {
+		n := len(ks)
+		k, rev := -idx-1, false
+		if k == 0 {
+			rev = true
+		} else if k >= n {
+			k, rev = k-n+1, true
+		}
+		out := append(append([]K{}, ks[k%n:]...), ks[:k%n]...)
+		if rev {
+			for i, j := 0, n-1; i < j; i, j = i+1, j-1 {
+				out[i], out[j] = out[j], out[i]
+			}
+		}
+		return out
 	}
 	// decode the idx-th permutation in lexicographic order (factorial number system)
 	n := len(ks)
